@@ -243,7 +243,7 @@ def case(spec):
                 probes = rng.sample(probes, 10)
             for d in probes:
                 want = title_of[prev_map[d]]
-                how = rng.choice(['arg', 'drive-opt', 'colon'])
+                how = rng.choice(['arg', 'drive-opt', 'colon', 'colon-info'])
                 if how == 'arg':
                     argv = [dfsbin] + opts + ['show-titles', str(d)]
                     expect = ('%d: %s\n' % (d, want)).encode()
@@ -258,6 +258,19 @@ def case(spec):
                         argv = [dfsbin] + opts + ctxo + ['info', 'ID']
                         expect = None
                         how = 'drive-opt-info'
+                elif how == 'colon-info':
+                    # the drive inside a wildcard (any number of digits)
+                    argv = [dfsbin] + opts + ['info', rng.choice([':%d.$.ID', ':%d.#.*', ':%d.$.I#']) % d]
+                    ln = len(('unique body of %s' % want).encode())
+                    r_ = run(argv, timeout=60)
+                    res.execs += 1
+                    res.events += 1
+                    if clean_failure_key(r_, (0, 1, 2)) or r_.rc != 0 or not r_.out.startswith(b'$.ID') or \
+                            (b' %06X ' % ln) not in r_.out:
+                        res.violation('wrong-surface-read:colon-info', 'info with drive %d inside the wildcard should list $.ID '
+                                      'of length %X, got %r (exit %s)' % (d, ln, r_.out[:60], r_.rc),
+                                      {'history': hist, 'run': r_.brief()}, files, r_.argv)
+                    continue
                 else:
                     argv = [dfsbin] + opts + ['type', '--binary', ':%d.$.ID' % d]
                     expect = ('unique body of %s' % want).encode()
@@ -316,7 +329,7 @@ def main(tier, seed, scale=1.0):
         hists = keep + mm[:16]
     nrand = 30 if q else 6000
     for _ in range(nrand):
-        n = r.randint(4, 6)
+        n = r.choice([4, 5, 6, 8])
         h = tuple(r.choice(light if r.random() < 0.9 else SYMS) for _ in range(n))
         if h.count('mmb') <= 1 and any(s not in ('first', 'physical') for s in h):
             hists.append(h)
